@@ -84,16 +84,24 @@ def first_bad(vals):
     return not vals or not (vals[0].startswith('(0%nat, [])') or vals[0].startswith('(0, [])'))
 
 
-def run_cases(ctx, name, decl, okdef, lits, per=300):
+def run_cases(ctx, name, decl, okdef, lits, per=300, header=None):
     """Evaluates `bad ok cases` shard by shard inside Coq; True when all agree."""
+    header = header or HEADER
     ob = f'correspondence:{name}'
     ctx.obligations.append(ob)
     good = True
-    for k in range(0, len(lits), per):
+    shards = list(range(0, len(lits), per))
+
+    def one(k):
         sh = lits[k:k + per]
         body = ';\n'.join('  ' + l for l in sh)
-        text = HEADER + f'\nDefinition cases : list ({decl}) := [\n{body}\n].\n{okdef}\nEval vm_compute in (bad ok cases).\n'
-        vals = ctx.coq_eval(f'{name}{k // per}', text)
+        text = header + f'\nDefinition cases : list ({decl}) := [\n{body}\n].\n{okdef}\nEval vm_compute in (bad ok cases).\n'
+        return ctx.coq_eval(f'{name}{k // per}', text)
+    # shards are independent coqc processes: evaluate up to four at a time, report in shard order
+    from concurrent.futures import ThreadPoolExecutor
+    with ThreadPoolExecutor(max_workers=4) as pool:
+        results = list(pool.map(one, shards))
+    for k, vals in zip(shards, results):
         if vals is None:
             good = False
         elif first_bad(vals):
@@ -765,7 +773,9 @@ def run(ctx):
                 'pad_edges; (data, integer kernel shorter/equal/longer than data, mode) for padded_convolve; recorded '
                 'tolerance-test traces of optimize_window; 2-D shapes x pads x windows; distinct = distinct canonical case; '
                 'non-trivial = pad length > 0 and the call succeeds (pad), successful call (convolve), at least one loop pass '
-                '(optimize_window)')
+                '(optimize_window); typed grids (fixed, enumerated): every helper x input dtype bool/int8..int64/uint8..uint64/float16/'
+                'float32/float64 x container (ndarray, list/tuple of Python ints, bools, floats) x memory layout (reversed/strided views, '
+                'Fortran order, transposed, negative strides) x magnitudes 1e-300..1e300, output dtype compared with coq/C18/DType.v')
     ctx.trusted += [
         'numpy.pad for the modes used through the contract np_contract (length, interior); five modes are modelled '
         'concretely and compared exactly, all eleven are checked by the oracle on every run',
@@ -779,25 +789,30 @@ def run(ctx):
         'float rounding: sums to one / symmetry / exact continuation hold in exact arithmetic; floats are sampled by the oracle',
     ]
     ctx.gate()
-    ok = ctx.build_props(extra=['C18/Cmp.vo', 'C18/Model2D.vo'])
+    ok = ctx.build_props(extra=['C18/Cmp.vo', 'C18/Model2D.vo', 'C18/CmpD.vo'])
     corr_pad(ctx)
     corr_conv(ctx)
     corr_kernels(ctx)
     corr_ow(ctx)
     corr_2d(ctx)
+    from . import c18_dtypes
+    found_typed = c18_dtypes.run_all(ctx)
     budget = 1 if (ok and not ctx.broken) else 4
     if ctx.tier == 'thorough':
         budget = max(budget, 3)
     found = oracle_pad(ctx, budget) + oracle_conv(ctx, budget) + oracle_kernels(ctx, budget) + oracle_ow(ctx, budget) + oracle_2d(ctx, budget)
-    ctx.note(f'direct oracle budget x{budget}: {found} failing inputs')
+    ctx.note(f'direct oracle budget x{budget}: {found} failing inputs; typed (dtype/container/layout/magnitude) grids: {found_typed} failing inputs')
     ctx.note('not covered: callable pad modes, pad_kwargs (constant_values, end_values, reflect_type=odd), non-integer '
-             'extrapolate_window, float32/complex data, 4-value pad_length in pad_edges2d, N = 1 with window >= 2 '
+             'extrapolate_window, complex/longdouble/object data, float16 with a fitted window (numpy.linalg rejects float16), bool and float16 data in optimize_window (numpy/scipy raise), 4-value pad_length in pad_edges2d, N = 1 with window >= 2 '
              '(library warns, outside the quantifier); float rounding of the kernels is only sampled')
 
 
 def replay(rep):
     case = rep.get('case') or {}
     kind = case.get('kind')
+    if kind and kind.endswith('-typed'):
+        from . import c18_dtypes
+        return c18_dtypes.replay(case)
     utils = U()
     if kind == 'pad':
         st, out = call(utils.pad_edges, np.array(case['data'], dtype=float), case['pad_length'],
